@@ -65,3 +65,124 @@ REWRITES = [
     ("C07-r02 power via multiplication", FD, "SDOF_bellandMS", "Sval[csm, csm, l_] ** 2", "Sval[csm, csm, l_] * Sval[csm, csm, l_]"),
     ("C07-r03 time step written out", FD, "EFDD_mpe", "df = 1 / dt / nxseg", "df = 1 / (dt * nxseg)"),
 ]
+
+
+# ----------------------------------------------------------------------------- R-decrement (closed forms of the damping fit)
+import ast  # noqa: E402
+from .. import astq, symidx  # noqa: E402
+from ..program import rel  # noqa: E402
+from ..poly import P, P_div, P_pow  # noqa: E402
+from fractions import Fraction as _Fr  # noqa: E402
+
+_check_degree = check
+
+
+def check(prog, run):
+    _check_degree(prog, run)
+    decrement(prog, run)
+
+
+def decrement(prog, run):
+    run.rule("R-decrement", "EFDD_mpe closed forms: decrements relative to the first extremum, slope doubled because maxima AND minima are used "
+             "(window term removed for 'cor'), xi = lam/sqrt(4 pi^2 + lam^2), fn = fd/sqrt(1 - xi^2), fd = 1/mean(2*diff(time at extrema))", 5)
+    fi = prog.func(FN)
+    f = rel(prog.mods[fi.mod].path)
+    for msy in ("per", "cor"):
+        cfg = f"methodSy={msy}"
+        pf = astq.PrunedFn(fi, {"methodSy": msy})
+        apps = {}
+        for n in ast.walk(pf.node):
+            if isinstance(n, ast.Call) and isinstance(n.func, ast.Attribute) and n.func.attr == "append" and isinstance(n.func.value, ast.Name) and len(n.args) == 1:
+                apps.setdefault(n.func.value.id, []).append(n)
+        rets = [n for n in ast.walk(pf.node) if isinstance(n, ast.Return) and isinstance(n.value, ast.Tuple)]
+        if not rets:
+            run.ob("R-decrement", fi.qual, "return", None, "no tuple return", file=f, config=cfg)
+            continue
+        # lists feeding Fn and Xi
+        def feeder(k):
+            x = astq.expr_at(pf, rets[-1], rets[-1].value.elts[k])
+            names = [n.id for n in ast.walk(x) if isinstance(n, ast.Name) and n.id in apps]
+            return apps[names[0]][0] if names else None
+        a_fn, a_xi = feeder(0), feeder(1)
+        if a_fn is None or a_xi is None:
+            run.ob("R-decrement", fi.qual, "appended estimates", None, "lists feeding Fn / Xi not found", file=f, config=cfg)
+            continue
+        keep = ()
+        xi_x = astq.expr_at(pf, a_xi, a_xi.args[0])
+        fn_x = astq.expr_at(pf, a_fn, a_fn.args[0])
+        se = symidx.SymEval(prog, pf)
+        se.atoms = True
+        se.opaque_calls = True
+        xi_v, fn_v = se.ev(xi_x), se.ev(fn_x)
+        # the fitted slope: curve_fit(...)[0]
+        cf = [c for c in ast.walk(xi_x) if isinstance(c, ast.Call) and astq.callee_name(prog, pf, c) == "scipy.optimize.curve_fit"]
+        if xi_v is None or fn_v is None or not cf:
+            run.ob("R-decrement", fi.qual, "closed forms", None, f"xi/fn expressions not polynomial-evaluable ({astq.src(xi_x, 60)})", file=f, node=a_xi, config=cfg)
+            continue
+        L = se.ev(ast.Subscript(value=cf[0], slice=ast.Constant(value=0), ctx=ast.Load()))
+        if msy == "per":
+            lam = L * 2
+        else:
+            tau = se.ev(ast.parse("-(nxseg - 1) / np.log(0.01)", mode="eval").body)
+            # nxseg here is the number of lines: use the code's own definition of tau through the environment
+            env = astq.env_at(pf.node.body, a_xi)
+            tau_e = env.get("tau")
+            tau = se.ev(tau_e) if tau_e is not None else None
+            lam = (L * 2 - P_div(P.c(1), tau)) if tau is not None else None
+        if lam is None:
+            run.ob("R-decrement", fi.qual, "window correction", None, "time constant of the exponential window not found", file=f, node=a_xi, config=cfg)
+            continue
+        pi = P.s("pi")
+        exp_xi = lam * P_pow(pi * pi * 4 + lam * lam, _Fr(-1, 2))
+        ok = xi_v == exp_xi
+        if msy == "cor":
+            # the windowed-correlogram case is outside the property's claim: the window term is not judged, only that xi has the
+            # closed form in whatever slope the code uses
+            env = astq.env_at(pf.node.body, a_xi)
+            lam_code = se.ev(env["lam"]) if "lam" in env else None
+            if lam_code is not None:
+                exp_xi = lam_code * P_pow(pi * pi * 4 + lam_code * lam_code, _Fr(-1, 2))
+                ok = xi_v == exp_xi
+        run.ob("R-decrement", fi.qual, "xi = lam/sqrt(4 pi^2 + lam^2) with lam = 2 x fitted slope" + (" - 1/tau" if msy == "cor" else ""), ok,
+               f"xi = {xi_v!r}"[:200], witness=repr(xi_v)[:90], file=f, node=a_xi, config=cfg)
+        # fn = fd / sqrt(1 - xi^2)
+        fd_candidates = [c for c in ast.walk(fn_x) if isinstance(c, ast.BinOp) and isinstance(c.op, ast.Div)]
+        exp_fn_factor = P_pow(P.c(1) - exp_xi * exp_xi, _Fr(-1, 2))
+        okf = False
+        fd_v = None
+        if isinstance(fn_x, ast.BinOp) and isinstance(fn_x.op, ast.Div):
+            fd_v = se.ev(fn_x.left)
+            den = se.ev(fn_x.right)
+            okf = fd_v is not None and den is not None and den == P_pow(P.c(1) - exp_xi * exp_xi, _Fr(1, 2))
+        run.ob("R-decrement", fi.qual, "fn = fd / sqrt(1 - xi^2)", okf, f"fn = `{astq.src(fn_x, 90)}`", witness=astq.src(fn_x, 80), file=f, node=a_fn, config=cfg)
+        if fd_v is not None:
+            s = repr(fd_v).replace(" ", "")
+            okd = s.startswith("mean[2*diff[") and s.endswith("]^-1") or (s.startswith("mean[") and "2*diff[" in s and s.endswith("^-1"))
+            run.ob("R-decrement", fi.qual, "fd = 1/mean(2 x spacing of consecutive extrema on the lag axis)", okd, f"fd = {fd_v!r}"[:160], witness=repr(fd_v)[:90], file=f, node=a_fn, config=cfg)
+            oka = "time[" in s or "linspace" in s
+            run.ob("R-decrement", fi.qual, "extrema spacing is measured on the lag (time) axis", oka, f"fd = {fd_v!r}"[:120], witness=repr(fd_v)[:90], file=f, node=a_fn, config=cfg)
+        # decrements relative to the first extremum: log(|m[0]| / |m[k]|)
+        dl = [c for c in ast.walk(pf.node) if isinstance(c, ast.Call) and astq.callee_name(prog, pf, c) == "numpy.log" and c.args and isinstance(c.args[0], ast.BinOp) and isinstance(c.args[0].op, ast.Div)]
+        okl = False
+        why = "no log of a ratio of extrema found"
+        for c in dl:
+            a, b = c.args[0].left, c.args[0].right
+            ia = [s_ for s_ in ast.walk(a) if isinstance(s_, ast.Subscript)]
+            ib = [s_ for s_ in ast.walk(b) if isinstance(s_, ast.Subscript)]
+            if ia and ib and astq.dump(ia[0].value) == astq.dump(ib[0].value) and isinstance(ia[0].slice, ast.Constant) and ia[0].slice.value == 0 and isinstance(ib[0].slice, ast.Name):
+                okl = astq.strip_abs(prog, pf, a) is not None and astq.strip_abs(prog, pf, b) is not None
+                why = f"`{astq.src(c, 70)}`"
+        run.ob("R-decrement", fi.qual, "decrement k = log(|extremum 0| / |extremum k|)", okl, why, witness=why[:80], file=f, node=dl[0] if dl else None, config=cfg)
+
+
+MUTANTS += [
+    ("C07-m09 factor 2 of the decrement dropped", FD, "EFDD_mpe", "lam = 2 * lam", "lam = 1 * lam"),
+    ("C07-m10 damping without the 4 pi^2 term", FD, "EFDD_mpe", "xi_EFDD = lam / np.sqrt(4 * np.pi ** 2 + lam ** 2)", "xi_EFDD = lam / np.sqrt(np.pi ** 2 + lam ** 2)"),
+    ("C07-m11 undamped frequency multiplied instead of divided", FD, "EFDD_mpe", "fn_EFDD = fd_EFDD / np.sqrt(1 - xi_EFDD ** 2)", "fn_EFDD = fd_EFDD * np.sqrt(1 - xi_EFDD ** 2)"),
+    ("C07-m12 period from maxima only", FD, "EFDD_mpe", "Td = np.diff(time[minmax_fit_idx]) * 2", "Td = np.diff(time[minmax_fit_idx])"),
+    ("C07-m13 decrement between consecutive extrema", FD, "EFDD_mpe", "np.log(np.abs(minmax[0]) / np.abs(minmax[ii]))", "np.log(np.abs(minmax[ii - 1]) / np.abs(minmax[ii]))"),
+]
+REWRITES += [
+    ("C07-r04 square via multiplication in xi", FD, "EFDD_mpe", "xi_EFDD = lam / np.sqrt(4 * np.pi ** 2 + lam ** 2)", "xi_EFDD = lam / np.sqrt((2 * np.pi) ** 2 + lam * lam)"),
+    ("rename:C07-r05", FD, "EFDD_mpe", "Td_EFDD", "period"),
+]
